@@ -6,3 +6,11 @@ pub assume_specification<T, E, U, F: FnOnce(T) -> Result<U, E>>[ Result::<T, E>:
         r is Ok ==> op.ensures((r->Ok_0,), res),
         r is Err ==> res is Err && res->Err_0 == r->Err_0,
 ;
+
+pub assume_specification<T, E, F: FnOnce(E) -> T>[ Result::<T, E>::unwrap_or_else ](r: Result<T, E>, op: F) -> (res: T)
+    requires
+        r is Err ==> op.requires((r->Err_0,)),
+    ensures
+        r is Ok ==> res == r->Ok_0,
+        r is Err ==> op.ensures((r->Err_0,), res),
+;
